@@ -1,4 +1,4 @@
-"""G1: container code keeps no mutable state outside the container object.
+"""GS1: container code keeps no mutable state outside the container object.
 
 Every container operation's result is a function of the handle it is given (and errno, which is thread-local).  A
 file-scope or function-static variable that the unit writes is state shared by all tables and all threads: one table's
@@ -20,7 +20,7 @@ def _root_name(e):
     return None
 
 
-def rule_g1(prog, rep, units, rid='G1'):
+def rule_g1(prog, rep, units, rid='GS1'):
     rep.rule(rid, 'no operation of the unit writes a file-scope or function-static variable that the unit also reads: all mutable state lives in the container '
                   'object the caller passes in (per-table results are independent of other tables and threads; errno is thread-local)')
     for rel in units:
